@@ -30,8 +30,8 @@ ASSUMPTIONS = ["the for-all-games / for-all-K part is only sampled along the his
 PROBES = ["torn_then_recomputed", "scribble_then_compute", "negative_values", "registry_game", "exact_mode",
           "float_mode", "unreveal_then_compute"]
 TIERS = {
-    "quick": {"runs": 30000, "wall": 40, "batch": 16, "shrink_s": 40},
-    "thorough": {"runs": 2000000, "wall": 600, "batch": 32, "shrink_s": 120},
+    "quick": {"runs": 120000, "wall": 40, "batch": 48, "shrink_s": 40},
+    "thorough": {"runs": 20000000, "wall": 900, "batch": 64, "shrink_s": 120},
 }
 SA_REGISTRY = ["factory", "factory_square", "factory_exp", "noisy_factory", "noisy_factory_square", "graph_random",
                "graph_cycle", "graph_ws_connected", "factory_cheerleader", "factory_cheerleader_next",
